@@ -303,7 +303,7 @@ def c16(ctx):
     gen = os.path.join(ctx.scratch, 'c16_embed_h.go')
     subprocess.check_call(['python3', H(ctx, 'C16', 'gen.py'), ctx.repo, gen])
     q = ctx.quick
-    return [tool_job(ctx, 'directive', 'internal/goembed', 'goembed', [gen], unwind=60, deadline_s=900 if q else 3000,
+    return [tool_job(ctx, 'directive', 'internal/goembed', 'goembed', [gen], unwind=60, deadline_s=900 if q else 5400,
                      only=['H_embed_prefix', 'H_embed_args3', 'H_fsorder'] if q else ['H_embed_prefix', 'H_embed_args3', 'H_embed_args4', 'H_fsorder'])]
 
 
